@@ -9,6 +9,9 @@ CFG = {
              "element list of Contour::to_kurbo with coordinates as f64 bit patterns, decoded exactly (quarter units). transforms: 100k/1M "
              "lines of 6 coefficients + point (small integers, quarter units, arbitrary finite doubles, font-unit decimals, boundary values) "
              "observing ContourPoint::transform, kurbo::Affine::from(t) * Point, the coefficients of both conversions and both round trips. "
+             "plus ~17k near-shape transforms: every coefficient at the value of a shape an optimisation might test for (identity, zero, pure "
+             "translation, scale only, uniform scale, equal cross terms, quarter turn, mirror) or 1-2 ulp / 2^-53 / 1e-16 / EPS/2 / EPS / 2 EPS beside it, "
+             "all six at once and one at a time, applied to the origin, +-0 and points at 2^52, 2^53, 1e18, +-MAX/4. "
              "Two builds: the generator runs in the harness built with norad's kurbo feature and drives the harness built with the crate's DEFAULT "
              "features as a worker, so ContourPoint::transform (every transform line, token p:) and Contour::is_closed (every type sequence "
              "up to length 4, lines C20 C) are observed in both builds, compared with the formula / the model and with each other. "
@@ -45,7 +48,8 @@ MANIFEST = {
              "translates to_kurbo (arms, thresholds, error, rotation, off-curve-only block, close_path), transform, both From impls and kurbo's "
              "vendored Affine * Point to Lean on every run; source_toKurbo_eq_model / source_toKurbo_eq_spec / source_never_closes / "
              "source_transform_eq_model / source_conversions_eq_model / source_kurbo_apply_eq_model / source_transform_property prove that the "
-             "regenerated definitions are the model's, so every C20 theorem is re-checked against the source as it is now; transform is extracted in both "
+             "regenerated definitions are the model's, so every C20 theorem is re-checked against the source as it is now; early returns of transform are translated as guarded arms with the predicate's body read from the source "
+             "(source_transform_has_no_early_return), no statement of a translated body is ever skipped; transform is extracted in both "
              "cfg(feature = kurbo) variants (source_transform_plain_eq_model, source_transform_builds_agree) and executed in both builds of the harness "
              "(rules formula:plain, transform-differs-between-builds, closed-test:*, is-closed-differs-between-builds)."),
     "design_ref": "5 / C20, Appendix D",
